@@ -9,6 +9,7 @@ import glob
 import json
 import os
 import random
+import sys
 from typing import Any, Dict, List, Optional, Tuple
 
 import pyside
@@ -212,7 +213,19 @@ def run_opmode(ck: Check, prop_file: str, n_quick=(100, 36, 3), n_thorough=(1400
         ns, nsingle, nv = (int(x) for x in os.environ["VERIF_C04_SIZES"].split(","))
     cases = load_corpus(ck.prop)
     n_corpus = len(cases)
-    cases.extend(gen_cases(ck, ns, nsingle, nv))
+    if ck.replay_file:                              # ./check C04 --replay <file>: only that input
+        j = json.load(open(ck.replay_file))
+        if "schema" in j and ("value" in j or "values" in j):
+            rs = sg.schema_from_json(j["schema"])
+            rv = [sg.value_from_json(rs.top, x) for x in (j.get("values") or [j["value"]])]
+            cases = [(rs, rv, "replay:" + os.path.basename(ck.replay_file), [])]
+            n_corpus = 0
+        else:
+            print(f"[{ck.prop}] replay file names no concrete input (broken obligation only): running the normal check",
+                  file=sys.stderr)
+            cases.extend(gen_cases(ck, ns, nsingle, nv))
+    else:
+        cases.extend(gen_cases(ck, ns, nsingle, nv))
     jobs = []
     flag_cycle = [["gcc", "-O1"]] if ck.quick else [["gcc", "-O0"], ["gcc", "-O1"], ["gcc", "-O2"], ["gcc", "-O3"],
                                                      ["clang", "-O0"], ["clang", "-O2"]]
